@@ -432,29 +432,36 @@ PROPS["C20"] = dict(
                "colour-blind. BERNSTEIN (eval.go, exchange.go, search.go transcribed function by function): Evaluate >= 1 always, every term bounded, Eval.Evaluate is a finite float32 for every "
                "represented position with both kings and 0 <= factor <= 10^4 with NO floating-point hypothesis left (eval_total_closed), it panics exactly when a side has no king; "
                "FindPlausibleMoves returns only legal non-under-promotion moves, each once, non-empty whenever a legal move exists, a permutation of them when castling is not possible; the "
-               "truncated table is a prefix within the limit and non-empty; FindCapture = exactly the attackers of the square by the reference, each once; Evaluate is colour-blind on positions "
-               "without an e.p. target (evaluate_mirror; with a target the opponent's Mobility is taken on a position that is not well-formed for him: decided by the mirrored-history stream only). "
+               "truncated table is a prefix within the limit and non-empty; FindCapture = exactly the attackers of the square by the reference, each once; Eval.Evaluate is colour-blind on every "
+               "well-formed position, also with an e.p. target (eval_mirror; the opponent's Mobility then counts phantom e.p. captures - opponent_mobility_phantoms - which mirror pawn by pawn). "
                "SARGON (eval.go, exchange.go, search.go, pkg/eval/pins.go transcribed): Points.Evaluate is total with explicit bounds on every represented position, every loop terminates within "
                "its fuel, no index error; FindPins returns exactly the pins of the reference ray geometry; FindAttackers is sound (direct attackers complete); the per-search reference values "
                "are isolated per board (root_after_reset_other: the repaired 353417e behaviour); the under-promotion filter is C20.pick. Books: engine.NewBook, for EVERY list of lines, either fails "
                "or returns a book in which every reply is a legal move (also of the reference) of a position reachable from the start whose stripped FEN is the key (newBook_sound, newBook_rejects); "
                "the extracted BERNSTEIN lines build successfully; all 21 SARGON entries are legal replies (sargon_book_legal); Find depends only on the first four FEN fields. "
-               "TUROCHAMP: exploration level until its transcription lands (mirror symmetry, finiteness, considerable-move legality by the c20 stream). "
+               "TUROCHAMP (eval.go, quiescence.go transcribed): material >= 1/2 so no zero divisor; Material.Evaluate, PositionPlay (for EVERY iteration order of its Go map) and Eval.Evaluate are "
+               "finite with explicit bounds on every well-formed position (evaluate_finite, no floating-point hypothesis left); the considerable moves are exactly the generated moves passing the "
+               "transcribed test, a duplicate-free sublist of the legal moves; material and the castling / check / defender / king-safety / pawn-credit terms are colour-blind; "
+               "positionPlay_order_dependent: PositionPlay itself depends on the map order by one ulp (kernel-evaluated witness, also observed on the real code) while Eval.Evaluate, which rounds it to "
+               "two decimals, had one value in every case run (order independence and the mirror of the mobility terms are not yet theorems). Constants of all three engines are regenerated "
+               "from the source (Gen/Engines.lean) and re-proved equal to the models' (GenTieEngines, GenTieTurochamp). "
                "Tie: bit-for-bit float arithmetic (flt), all components of both evaluations, plausible tables, pins, attacker stacks, exchange values, complete book contents (bernstein, sargon, books "
-               "streams: impl = model exactly), mirror symmetry and legality oracles on generated histories (c20).",
+               "turochamp streams: impl = model exactly; pins, direct attackers, control / king-defence / material / attackers / safety and the filter properties also against the reference), "
+               "mirror symmetry and legality oracles on generated histories (c20).",
     level_note="Trusted: Lean kernel; Model.Flt tied bit-for-bit to Go's float32/float64 (+,-,*,/,sqrt,conversions, math.Round) on the operands of every run; Model.Bernstein / Model.Sargon / Model.EvalPins / "
                "Model.EvalCapture / Model.Book tied by exact comparison of every intermediate component; book data regenerated from the source (Gen/Books.lean). SARGON is not colour-blind "
                "(points_not_colour_blind, kernel-checked witness) - the property does not claim it. sort.Slice above 12 elements (unstable) is not modelled: those ops compare values only.",
     technique="Lean 4 proof (exact IEEE rounding model; function-by-function transcriptions of BERNSTEIN, SARGON, pins/captures, opening books; mirror symmetry of the rules) + exact differential "
               "correspondence of every intermediate component + mirror/legality oracles",
     rule="c20: 150/6000 positions with histories + curated squeezed positions (mirror, finiteness, filter legality, book walk); flt: 4.6k/400k float operations incl. every sqrt the evaluators can ask for; "
-         "bernstein: ~950/20k evaluations+tables on curated and random positions with histories; sargon: ~290/15k evaluations with all components; books: ~1.1k/25k book constructions and lookups; "
+         "bernstein: ~950/20k evaluations+tables on curated and random positions with histories; sargon: ~290/12k evaluations with all components; turochamp: ~390/9k evaluations with all components and considerable lists; books: ~1.1k/25k book constructions and lookups; "
          "non-trivial = distinct script / operation",
-    partial=["TUROCHAMP evaluator and considerable-move filter not yet transcribed: exploration only",
-             "BERNSTEIN colour-blindness proved only without an e.p. target; SARGON FindAttackers x-ray chains proved sound, complete only for direct attackers; OnePlyIfChecked only tested",
+    partial=["TUROCHAMP: colour-blindness of the whole evaluation and its independence of the Go map order are decided by the streams (mirror pairs, all orders enumerated by the harness copy), "
+             "proved only for the parts listed",
+             "SARGON FindAttackers x-ray chains proved sound, complete only for direct attackers",
              "Go's unstable sort.Slice above 12 elements not modelled (values compared, no difference ever observed)"],
     modelled=["cmd/bernstein/bernstein/{eval,exchange,search}.go -> Model.Bernstein; pkg/eval/capture.go -> Model.EvalCapture; cmd/sargon/sargon/{eval,exchange,search}.go -> Model.Sargon; "
-              "pkg/eval/pins.go -> Model.EvalPins; pkg/engine/book.go, cmd/*/book.go, fen.Strip -> Model.Book (+ Gen.Books); eval/material.go -> Model (materialPawns); float32/float64 -> Model.Flt"],
+              "pkg/eval/pins.go -> Model.EvalPins; cmd/turochamp/turochamp/{eval,quiescence}.go -> Model.Turochamp; pkg/engine/book.go, cmd/*/book.go, fen.Strip -> Model.Book (+ Gen.Books); eval/material.go -> Model (materialPawns); float32/float64 -> Model.Flt"],
 )
 
 
